@@ -159,6 +159,14 @@ func genC07Main(t *rapid.T) C07Case {
 	o := fullOpts
 	o.Sloppy = chancePct(t, 20, "sloppy")
 	a := GenApp(t, o)
+	// a first function that does nothing a client can see (no flag, no refusal): it runs
+	// once for the long-lived engine and at every request of the stored session
+	// (its result is a cached value like any other while it runs: with a cache capacity the
+	// two ways of serving differ by construction, and so does the "last value" a gracefully
+	// ending session appends - neither is compared for such a case)
+	if a.Cfg.CacheSize == 0 {
+		genFirst(t, a, 12, false)
+	}
 	if chancePct(t, 30, "langpager") {
 		addLangPager(t, a)
 		// a history that visits the pager, switches the language and comes back
@@ -292,6 +300,12 @@ func checkC07(c C07Case) (o Outcome) {
 		if ps.FinishErr != "" {
 			o.Viol = viol("save-failed", "request %d (%q): saving the session failed: %s", i, in, ps.FinishErr)
 			return
+		}
+		if c.App.Cfg.First != nil && !ls.Cont && !ps.Cont && ls.ExecErr == "" && ps.ExecErr == "" {
+			// the end of the session: what is appended to the last page is the last value
+			// loaded, which in engine-per-request operation is the first function's
+			o.class("first-function:end-not-compared")
+			break
 		}
 		if ls.Visible() != ps.Visible() {
 			o.Viol = viol("transcripts-differ", "request %d (%q) on %s:\n long-lived: %s (%s)\n persisted : %s (%s)", i, in, c.Backend, ls.Visible(), ls.ExecErr+ls.FlushErr, ps.Visible(), ps.ExecErr+ps.FlushErr)
